@@ -46,7 +46,7 @@ def run(ctx):
     for k, i in enumerate(insts):
         first.setdefault((i["mi"], i["pat"]), k)
     heavy = set(first.values())
-    nmax = 260 if ctx.quick else 6000
+    nmax = 260 if ctx.quick else 4500
     order = list(range(len(insts)))
     rnd.shuffle(order)
     chosen = sorted(heavy | set(order[: max(0, nmax - len(heavy))]))
@@ -65,7 +65,7 @@ def run(ctx):
     nexact = len(jobs)
     for m in fvops.float_meshes(ctx):
         jobs.append(("call", dict(module="harness.fvops", func="float_trace", args=m)))
-    traces = rf.replay_all(ctx, jobs)
+    traces = rf.replay_all(ctx, jobs, nproc=8 if ctx.quick else None)
     refused = [t for t in traces if t["kind"] == "refused"]
     traces = [t for t in traces if t["kind"] != "refused"]
     ctx.cov["float_meshes_refused_by_mesh_smooth"] = [t["label"] for t in refused]
